@@ -314,7 +314,7 @@ Definition sink_block (w : world) (p : nat) : world * yld :=
               | None => (crashw w (CType 73), YDone)      (* now - None *)
               | Some c =>
                   let w := upd_node w n (fun x => x <| nrecv ::= S |> <| ncycle ::= fun v => v + (wnow w - c) |>) in
-                  sink_loop (logw w (LRecv (wnow w) n i)) p n
+                  sink_loop (logw w (LRecv (wnow w) n i c)) p n
               end
           end
       end
